@@ -35,6 +35,8 @@ pub struct NodeB {
     pub prevote_grants: HashSet<u64>,
     // ---- C17
     pub transfer_ticks: (u64, usize),
+    /// ghost of a pending transfer: (target, own ticks since the request was accepted)
+    pub xfer: Option<(u64, usize)>,
     // ---- C13: snapshots sent and neither reported nor acknowledged
     pub snap_out: HashMap<u64, u64>,
 }
@@ -163,6 +165,7 @@ impl Mon {
         nb.snap_out.clear();
         nb.prevote_grants.clear();
         nb.transfer_ticks = (0, 0);
+        nb.xfer = None;
         if !first && nb.pending_at_crash {
             self.flags |= F_RESTART_MID_BATCH;
         }
@@ -267,7 +270,8 @@ impl Mon {
 
         // ------------------------------------------------ C09
         if self.on(P09) {
-            self.c09_after_call(ni, kind, pre, post, op);
+            let app_applied = nodes[ni].cache.0.borrow().app.applied;
+            self.c09_after_call(ni, kind, pre, post, app_applied, op);
         }
         // ------------------------------------------------ C16
         if self.on(P16) {
@@ -296,7 +300,7 @@ impl Mon {
 
     // ------------------------------------------------------------------ C09
 
-    fn c09_after_call(&mut self, ni: usize, kind: &CallKind, pre: &NodeObs, post: &NodeObs, op: usize) {
+    fn c09_after_call(&mut self, ni: usize, kind: &CallKind, pre: &NodeObs, post: &NodeObs, app_applied: u64, op: usize) {
         let id = (ni + 1) as u64;
         // (a) what a leader appends
         if pre.role == StateRole::Leader && post.role == StateRole::Leader && pre.term == post.term && post.last_index > pre.last_index {
@@ -373,7 +377,9 @@ impl Mon {
             && matches!(post.role, StateRole::PreCandidate | StateRole::Candidate | StateRole::Leader)
             && !matches!(kind, CallKind::Step(m) if !matches!(m.get_msg_type(), MessageType::MsgTimeoutNow));
         if starts {
-            let lo = pre.applied.max(pre.pending_snapshot.map_or(0, |s| s.0)).max(pre.log.base);
+            // "unapplied locally" is judged by what the application really applied, not by the
+            // node's own applied cursor (which a defect may have advanced too far)
+            let lo = app_applied.min(pre.applied).max(pre.pending_snapshot.map_or(0, |s| s.0)).max(pre.log.base);
             for i in (lo + 1)..=pre.committed {
                 if let Some(e) = pre.log.get(i) {
                     if e.ty != 0 {
@@ -527,6 +533,47 @@ impl Mon {
                 }
                 if pre.transferee.is_some() && pre.transferee != Some(t) {
                     self.flags |= F_TRANSFER_NONTRIVIAL;
+                }
+            }
+        }
+        // ---- ghost of the pending transfer, independent of the crate's own field
+        if !leader_both {
+            self.b.nb[ni].xfer = None;
+        } else {
+            if let Some(t) = req {
+                let is_learner = pre.conf.learners.contains(&t);
+                let has_pr = pr_of(pre, t).is_some();
+                if is_learner || !has_pr {
+                    // ignored
+                } else if t == id {
+                    self.b.nb[ni].xfer = None;
+                } else if self.b.nb[ni].xfer.map(|x| x.0) != Some(t) {
+                    self.b.nb[ni].xfer = Some((t, 0));
+                }
+            }
+            if matches!(kind, CallKind::Tick) {
+                if let Some((t, k)) = self.b.nb[ni].xfer {
+                    self.b.nb[ni].xfer = if k + 1 >= self.election_tick { None } else { Some((t, k + 1)) };
+                }
+            }
+            if let Some((t, _)) = self.b.nb[ni].xfer {
+                if !post.conf.is_voter(t) {
+                    self.b.nb[ni].xfer = None;
+                }
+            }
+            if let Some((t, k)) = self.b.nb[ni].xfer {
+                // well inside the election timeout the transfer must still be pending
+                if k + 2 < self.election_tick && post.transferee != Some(t) && post.conf.is_voter(id) {
+                    self.violation(
+                        "C17",
+                        "transfer-abandoned-early",
+                        format!(
+                            "leader {} accepted a transfer to {} {} of its ticks ago (election timeout {}) but no longer treats it as pending after {} (pending now: {:?})",
+                            id, t, k, self.election_tick, kind.name(), post.transferee
+                        ),
+                        op,
+                    );
+                    self.b.nb[ni].xfer = None;
                 }
             }
         }
